@@ -1200,6 +1200,8 @@ C17_REQUESTS = [
     ("unenc-none", {"httpseeds": ["http://ok/", None]}),
     ("unenc-object", {"comment": Unencodable()}),
     ("unenc-scalar", {"source": 2.5}),
+    ("unenc-bool", {"comment": True}),
+    ("unenc-bool-in-list", {"url-list": ["http://ok/", False]}),
 ]
 
 
@@ -1245,7 +1247,8 @@ class EditFaults:
         gs = []
         for ver in ("v1", "v2", "hy"):
             for opts in ("bare", "full", "bare-symlink", "bare-otheruid",
-                         "bare-readonly", "bare-hardlink", "big", "huge"):
+                         "bare-readonly", "bare-hardlink", "bare-name255",
+                         "bare-name250", "bare-tmpsibling", "big", "huge"):
                 if opts.startswith("bare-") and ver != "hy":
                     continue
                 if opts == "bare-otheruid" and os.geteuid() != 0:
@@ -1270,6 +1273,11 @@ class EditFaults:
                 variant=None):
         work = world.fresh_dir()
         path = os.path.join(work, "m.torrent")
+        if variant in ("name255", "name250"):
+            # a metafile whose own file name is (nearly) as long as a name
+            # can be: no room for a suffix on a sibling's name
+            n = int(variant[4:])
+            path = os.path.join(work, "a" * (n - 8) + ".torrent")
         if symlink:
             # the metafile path is a symbolic link to the real file
             os.mkdir(os.path.join(work, "store"))
@@ -1287,6 +1295,12 @@ class EditFaults:
                 os.chmod(path, 0o444)
             elif variant == "hardlink":
                 os.link(path, os.path.join(work, "second-name.torrent"))
+            elif variant == "tmpsibling":
+                # the names a careless writer would pick for its temporary
+                # file are taken: one by another name of the metafile itself
+                os.link(path, path + ".tmp")
+                with open(path + ".part", "wb") as f:
+                    f.write(b"someone else's data")
         args = {f: None for f in FIELDS}
         args.update(dict(C17_REQUESTS)[req_name])
         args = {k: (list(v) if isinstance(v, list) else v)
